@@ -207,6 +207,18 @@ pub fn from_reader_slice(slice: &mut &[u8]) -> (r: core::result::Result<Value, c
             None => r is Err,
         }
 { cbor::de::from_reader(slice) }
+// A-BTREE-WF: on well-formed registry labels (PrivateUse(i) only for unregistered i) the hand-written Ord is a total order
+// consistent with Eq (proved: lemma_regp_wf_order), hence BTreeSet behaves as a mathematical set of them (assumed here).
+#[verifier::external_body]
+pub fn regp_set_contains<T: crate::iana::EnumI64 + crate::iana::WithPrivateRange>(s: &alloc::collections::BTreeSet<crate::RegisteredLabelWithPrivate<T>>, k: &crate::RegisteredLabelWithPrivate<T>) -> (r: bool)
+    requires crate::common::wf_regp(*k), forall |x: crate::RegisteredLabelWithPrivate<T>| s@.contains(x) ==> crate::common::wf_regp(x),
+    ensures r == s@.contains(*k),
+{ s.contains(k) }
+#[verifier::external_body]
+pub fn regp_set_insert<T: crate::iana::EnumI64 + crate::iana::WithPrivateRange>(s: &mut alloc::collections::BTreeSet<crate::RegisteredLabelWithPrivate<T>>, k: crate::RegisteredLabelWithPrivate<T>) -> (r: bool)
+    requires crate::common::wf_regp(k), forall |x: crate::RegisteredLabelWithPrivate<T>| old(s)@.contains(x) ==> crate::common::wf_regp(x),
+    ensures final(s)@ == old(s)@.insert(k), r == !old(s)@.contains(k),
+{ s.insert(k) }
 #[verifier::external_body]
 pub fn str_ne_string(a: &str, b: &String) -> (r: bool)
     ensures r == (a@ != b@)
